@@ -41,17 +41,25 @@ class StepGuard:
             self.mon.use_tool_id(self.TOOL, 'vt-step-budget')
         st = self.st
 
+        own = StepGuard.run.__code__       # events of the guard's own frame never count and never raise
+
         def on_start(code, offset):
+            if code is own:
+                return
             st[0] += 1
             if st[2] and st[0] > st[1]:
                 st[3] = True
-                raise StepBudgetExceeded(st[1])
+                st[1] += 50_000             # raise again later if the code under test swallows the exception
+                raise StepBudgetExceeded(st[0])
 
         def on_jump(code, src, dst):
+            if code is own:
+                return
             st[0] += 1
             if st[2] and st[0] > st[1]:
                 st[3] = True
-                raise StepBudgetExceeded(st[1])
+                st[1] += 50_000
+                raise StepBudgetExceeded(st[0])
         ev = self.mon.events
         self.mon.register_callback(self.TOOL, ev.PY_START, on_start)
         self.mon.register_callback(self.TOOL, ev.JUMP, on_jump)
@@ -104,7 +112,14 @@ F_REINJECT = 'C17-import-of-injection-defined-node-reinjects'
 F_MODSLICE = 'C17-slice-in-modification-injection-fails'
 F_UNITDEF = 'C17-custom-unit-definition-drops-unit-magnitude'
 F_RESIDUE = 'C17-multi-axis-slice-residue-reapplied-on-import-or-modification'
-ALL_FLAGS = [F_STALE, F_EMPTY, F_STRSLICE, F_REINJECT, F_MODSLICE, F_UNITDEF, F_RESIDUE]
+# second shape of the same defect: once plain strings can be sliced at all, the slice of a modification is dropped
+# silently for strings as well (instead of the JSON error of the first shape)
+F_MODSLICE_B = F_MODSLICE + '#string-slice-dropped'
+ALL_FLAGS = [F_STALE, F_EMPTY, F_STRSLICE, F_REINJECT, F_MODSLICE, F_MODSLICE_B, F_UNITDEF, F_RESIDUE]
+
+
+def key_of(flag):
+    return flag.split('#')[0]
 
 SIG_COUNT = ['Path returned invalid number of nodes:', 'Local nodes are not available for DIP import:',
              'Source with the following name does not exist:']
@@ -335,9 +350,13 @@ def fit_host(v, D, typ, sl, flags, who=None):
     if not D:
         if typ == 'str' and not sl and isinstance(v, list) and all(isinstance(x, str) for x in v):
             return lit_text(dict(items=v, type='str'))
-        raise ModelFail('array delivered to a scalar host', SIG_CAST, F_STALE, payload=v, who=who)
-    if len(S) < len(D) or S[:len(D)] != D:
-        raise ModelFail('delivered shape %r does not fit host %r' % (S, D), SIG_CAST, F_STALE)
+        raise ModelFail('array delivered to a scalar host',
+                        ['Array value set to scalar node:'] if sl else ['Could not convert raw value to type:'],
+                        F_STALE, payload=None if sl else v, who=who)
+    if len(S) < len(D):
+        raise ModelFail('delivered value has fewer axes than the host', ['IndexError'], F_STALE)
+    if S[:len(D)] != D:
+        raise ModelFail('delivered shape %r does not fit host %r' % (S, D), ['has invalid dimension'], F_STALE, who=who)
     return v
 
 
@@ -461,7 +480,11 @@ def interp(stmts, env, flags, remotes, where='main'):
                 if sl and isstr and F_MODSLICE in flags:
                     raise ModelFail('string slice in a modification', ['JSONDecodeError'], F_MODSLICE,
                                     line=render_stmt(st, {})[0])
-                if sl and F_MODSLICE in flags and not isstr:
+                if sl and isstr and F_MODSLICE_B in flags:
+                    v = srcval
+                    if isinstance(v, list):
+                        raise ModelFail('array delivered to a scalar host', SIG_CAST, F_STALE, payload=v, who=h.path)
+                elif sl and (F_MODSLICE in flags or F_MODSLICE_B in flags) and not isstr:
                     try:
                         part = apply_slice(srcval, sl)
                     except (IndexError, TypeError):
@@ -521,6 +544,8 @@ def interp(stmts, env, flags, remotes, where='main'):
                         if len(rs) != 1:
                             raise ModelFail('re-injection on import selects %d nodes' % len(rs), SIG_COUNT, F_REINJECT)
                         n.raw = copy.deepcopy(rs[0][1].raw)
+                        if not n.unit:
+                            n.unit = rs[0][1].unit      # ... and a unit-less copy adopts the unit of whatever it found
                 if m.opts:
                     C.add('import-with-options')
                 if m.cond:
